@@ -31,3 +31,38 @@ Theorem c06_info_schedule_independent : forall parts parts',
   (forall x, In x (concat parts) <-> In x (concat parts')) -> gstrf_info parts = gstrf_info parts'.
 Proof. exact gstrf_info_permutation_invariant. Qed.
 Print Assumptions c06_info_schedule_independent.
+
+From SLU Require Import ElimRank.
+
+(* WHICH column is the first one reported does not depend on the pivot choices at all (threshold, tie-breaking, preferred
+   diagonal, forced row order, hence neither on the schedule): in exact arithmetic, Gaussian elimination with ANY admissible
+   row pivoting (elim m A k M piv: k columns eliminated, each with some not-yet-pivoted row whose reduced entry is nonzero)
+   finds all candidates of the next column zero exactly when that column of A is a linear combination of the earlier columns,
+   and the columns eliminated so far are linearly independent.  So "the first column all of whose candidate pivots are
+   exactly zero" is the least linearly dependent column of A*Pc: a function of the matrix alone. *)
+Theorem c06_eliminated_prefix_independent : forall m A k M piv, elim m A k M piv -> indep m A k.
+Proof. exact elim_prefix_independent. Qed.
+Print Assumptions c06_eliminated_prefix_independent.
+
+Theorem c06_zero_column_iff_dependent : forall m A k M piv, elim m A k M piv ->
+  (candidates_zero m M piv k <-> exists x, lin_comb m A k x).
+Proof. exact elim_zero_column_iff_dependent. Qed.
+Print Assumptions c06_zero_column_iff_dependent.
+
+Theorem c06_first_zero_column_is_least_dependent : forall m A k M piv,
+  elim m A k M piv -> candidates_zero m M piv k ->
+  (exists x, lin_comb m A k x) /\ (forall k', (k' < k)%nat -> ~ exists x, lin_comb m A k' x).
+Proof. exact first_zero_column_least. Qed.
+Print Assumptions c06_first_zero_column_is_least_dependent.
+
+(* two runs with different pivot choices report the same first singular column, and none gets past it *)
+Theorem c06_first_zero_column_unique : forall m A k1 M1 piv1 k2 M2 piv2,
+  elim m A k1 M1 piv1 -> candidates_zero m M1 piv1 k1 ->
+  elim m A k2 M2 piv2 -> candidates_zero m M2 piv2 k2 -> k1 = k2.
+Proof. exact first_zero_column_unique. Qed.
+Print Assumptions c06_first_zero_column_unique.
+
+Theorem c06_run_cannot_pass_zero_column : forall m A k1 M1 piv1 k2 M2 piv2,
+  elim m A k1 M1 piv1 -> candidates_zero m M1 piv1 k1 -> elim m A k2 M2 piv2 -> (k2 <= k1)%nat.
+Proof. exact run_cannot_pass_zero_column. Qed.
+Print Assumptions c06_run_cannot_pass_zero_column.
